@@ -809,11 +809,11 @@ def check_C01(ctx):
     return finish(ctx, "model_checking",
                   "progress: on every well-formed raw stream of <= 5/7 events TLC checks that each step of the event pump decreases a measure "
                   "and that the pump terminates under weak fairness, with unlimited and with tight alias limits; outcome contract: every "
-                  "string of <= 2/3 tokens over a 35-token YAML indicator alphabet (TLC-enumerated), a 15-document corpus with 300/6000 "
+                  "string of <= 2/3 tokens over a 38-token YAML indicator alphabet (TLC-enumerated), a 15-document corpus with 300/6000 "
                   "mutations (bit flips, deletions, duplications, truncations, inserted indicators / invalid UTF-8), deep and wide inputs "
                   "(flow / block sequences and mappings, unclosed flow, complex keys, a deep anchored node replayed three times, wide "
                   "sequences, long scalars, many documents, sign and parenthesis runs) at nesting 1999, 2000, 2001 and 20 000 (thorough: to "
-                  "1 000 000), an alias bomb; each x 9 entry points x 10 target types x 3 option vectors (240 / 138 calls per input), run "
+                  "1 000 000), an alias bomb; each x 9 entry points x 12 target types x 3 option vectors (294 / 168 calls per input), run "
                   "on the main thread of child processes with an 8 MiB stack, a 6 GiB address-space limit and a 20 s per-call watchdog; "
                   "every error is rendered four ways; non-trivial = inputs on which some calls return values and others errors",
                   ASSUME_COMMON + ["a call that terminates after more than 20 s would be reported as a hang; nested complex keys, whose cost "
